@@ -46,8 +46,19 @@ def run(chk):
     M = UnitModel(F)
     n_enums = n_enumerators = n_spell = n_decided = 0
     undecided = []
+    def in_scope(et):
+        return (et.startswith("PhQ::Unit::") or et in ("PhQ::UnitSystem", "PhQ::ConstitutiveModel::Type")
+                or any(M.T.var(kind, et) is not None for kind in ("abbr", "spell")))
+
     for et in M.T.enum_types():
         if et.startswith("PhQ::Dimension"):
+            continue
+        if not (et.startswith("PhQ::Unit::") or et in ("PhQ::UnitSystem", "PhQ::ConstitutiveModel::Type")
+                or any(M.T.var(kind, et) is not None for kind in ("abbr", "spell"))):
+            # the statement is about the unit types, the unit-system type and the constitutive-model type (and, so that a
+            # new table is never skipped, any enumeration an abbreviation or spelling table is specialised for): a helper
+            # enumeration without tables that is never printed or parsed is outside it
+            chk.observe("enumeration %s has no abbreviation/spelling table and is not a unit, unit-system or model type: outside C08" % et)
             continue
         n_enums += 1
         se = et.replace("PhQ::", "")
@@ -180,7 +191,7 @@ def run(chk):
                     chk.holds("R1", inst, "%d keys" % len(keys), loc)
     # R5 idioms
     for et in M.T.enum_types():
-        if et.startswith("PhQ::Dimension"):
+        if et.startswith("PhQ::Dimension") or not in_scope(et):
             continue
         se = et.replace("PhQ::", "")
         avar = M.T.var("abbr", et)
